@@ -691,6 +691,7 @@ static int _fetch_and_process_packet(OggVorbis_File *vf,
                                      int readp,
                                      int spanp){
   ogg_page og;
+  int halfrate=0; /* setting to carry into the next link when streaming */
 
   /* handle one packet.  Try to fetch it from current stream state */
   /* extract packets from page */
@@ -811,6 +812,7 @@ static int _fetch_and_process_packet(OggVorbis_File *vf,
               _decode_clear(vf);
 
               if(!vf->seekable){
+                halfrate=vorbis_synthesis_halfrate_p(vf->vi);
                 vorbis_info_clear(vf->vi);
                 vorbis_comment_clear(vf->vc);
               }
@@ -867,6 +869,7 @@ static int _fetch_and_process_packet(OggVorbis_File *vf,
 
           int ret=_fetch_headers(vf,vf->vi,vf->vc,NULL,NULL,&og);
           if(ret)return(ret);
+          if(halfrate)vorbis_synthesis_halfrate(vf->vi,1);
           vf->current_serialno=vf->os.serialno;
           vf->current_link++;
           link=0;
